@@ -177,6 +177,43 @@ def rand_sheet(rng):
     return s
 
 
+def identfmt_correspondence(rng, n):
+    """Identifier.fmt (as repaired: only the combinator marks are decoded, blanks inside quoted pieces survive) against
+    Lessm.IdentFmt.fmt on the same token lists, in-process -> (count, disagreements)"""
+    import sys
+    sys.path.insert(0, C.REPO)
+    try:
+        from lesscpy.plib.identifier import Identifier
+    finally:
+        sys.path.pop(0)
+    toks = ['a', '.b', '#i', ' ', '  ', '?>?', '?+?', '?~?', '?a?', '?', '??', '?>', '>?', '[t="x  y"]', "[u='p   q']", '[h="?>?"]', '[h="x?y?z"]',
+            ':hover', '*', '* ', '"', "'", '[k="a\'  b"]', 'li', '   ', '$', '$$', ',', '[w="  "]', '\t', 'b  c', "it's  ok", 'd"  e']
+    cases = []
+    for _ in range(n):
+        parsed = [[rng.choice(toks) for _ in range(rng.randrange(0, 7))] for _ in range(rng.randrange(1, 4))]
+        ws, nl = rng.choice([('', ''), (' ', '\n'), (' ', '')])
+        cases.append((ws, nl, parsed))
+    try:
+        model = C.Driver().run([('c01.identfmt', json.dumps({'ws': ws, 'nl': nl, 'parsed': parsed})) for ws, nl, parsed in cases])
+    except Exception as e:  # noqa
+        return n, [('driver', repr(e), None)]
+    dis = []
+    for (ws, nl, parsed), m in zip(cases, model):
+        ident = Identifier([], 0)
+        ident.parsed = parsed
+        try:
+            real = ident.fmt({'ws': ws, 'nl': nl})
+        except Exception as e:  # noqa
+            real = 'EXC %r' % e
+        try:
+            m = json.loads(m)     # the driver answers with a JSON string (escapes differ between the two encoders)
+        except Exception:  # noqa
+            pass
+        if real != m:
+            dis.append((json.dumps([ws, nl, parsed]), m, real))
+    return n, dis
+
+
 def catalogue(rng):
     out = []
     kinds = list(COMPOUNDS)
@@ -227,6 +264,10 @@ def run(tier):
     opts = [rng.choice(OPTS) for _ in srcs]
     res = C.compile_many(list(zip(srcs, opts)))
     disagreements = []
+    # model tie (iii): the selector printer at character level
+    nfmt, fdis = identfmt_correspondence(rng, 300 if tier == 'quick' else 8000)
+    chk.cov['identifier_fmt_token_lists_compared'] = nfmt
+    disagreements.extend(('identfmt',) + d for d in fdis[:3])
     # model tie (i): selectors through identParse via c02.flat on single-rule sheets of the catalogue
     cat_n = len(srcs) - nrand
     for i, (src, o, r) in enumerate(zip(srcs, opts, res)):
